@@ -60,7 +60,8 @@ def derive_case(dsize):
                 def digest(self):
                     return b"\xee" * dsize
             t.kex_engine = type("E0", (), {"hash_algo": Old})()
-            t._compute_key("A", 1)
+            with ctx.patches(std_patches(PM, PU, builtins=("int",))):
+                t._compute_key("A", 1)
         t.kex_engine = type("E", (), {"hash_algo": Hash})()
         with ctx.patches(std_patches(PM, PU, builtins=("int",))):
             out = t._compute_key(letter, nbytes)
@@ -90,24 +91,29 @@ def letters_case(tier):
         from paramiko.transport import Transport
         ciphers = sorted(Transport._cipher_info)
         macs = sorted(Transport._mac_info)
-        if tier == "quick":
-            vary = ctx.choice("what-varies", ["ciphers", "macs"])
-            if vary == "ciphers":
-                c2s_cipher, s2c_cipher = ctx.choice("cipher-c2s", ciphers), ctx.choice("cipher-s2c", ciphers)
-                c2s_mac, s2c_mac = "hmac-sha2-256", "hmac-sha2-512-etm@openssh.com"
-            else:
-                c2s_cipher, s2c_cipher = "aes128-ctr", "aes256-cbc"
-                c2s_mac, s2c_mac = ctx.choice("mac-c2s", macs), ctx.choice("mac-s2c", macs)
-        else:
+        comps = ["none", "zlib", "zlib@openssh.com"]
+        c2s_comp = s2c_comp = "none"
+        authed = rekey = False
+        vary = ctx.choice("what-varies", ["ciphers", "macs", "compression"] + ([] if tier == "quick" else ["ciphers-x-macs"]))
+        c2s_cipher, s2c_cipher = "aes128-ctr", "aes256-cbc"
+        c2s_mac, s2c_mac = "hmac-sha2-256", "hmac-sha2-512-etm@openssh.com"
+        if vary in ("ciphers", "ciphers-x-macs"):
             c2s_cipher, s2c_cipher = ctx.choice("cipher-c2s", ciphers), ctx.choice("cipher-s2c", ciphers)
+        if vary in ("macs", "ciphers-x-macs"):
             c2s_mac, s2c_mac = ctx.choice("mac-c2s", macs), ctx.choice("mac-s2c", macs)
+        if vary == "compression":
+            c2s_comp, s2c_comp = ctx.choice("compression-c2s", comps), ctx.choice("compression-s2c", comps)
+            authed = ctx.flag("already-authenticated")
+            rekey = ctx.flag("this-is-a-re-key")
         asked, handed = {}, {}
         for role in ("client", "server"):
             t = L.make_transport(role == "server", L.Script([]), L.make_server_interface([]) if role == "server" else None)
             mine, theirs = ((c2s_cipher, c2s_mac), (s2c_cipher, s2c_mac)) if role == "client" else ((s2c_cipher, s2c_mac), (c2s_cipher, c2s_mac))
             t.local_cipher, t.local_mac = mine
             t.remote_cipher, t.remote_mac = theirs
-            t.local_compression = t.remote_compression = "none"
+            t.local_compression, t.remote_compression = (c2s_comp, s2c_comp) if role == "client" else (s2c_comp, c2s_comp)
+            t.authenticated = authed
+            t.initial_kex_done = rekey
             t.K, t.H, t.session_id = 5, b"H", b"S"
             rec = []
             t._compute_key = lambda id, n, rec=rec: (rec.append((id, n)), b"\0" * n)[1]
@@ -117,6 +123,8 @@ def letters_case(tier):
             got = {}
             t.packetizer.set_outbound_cipher = lambda *a, **k: got.__setitem__("out", k if k else a)
             t.packetizer.set_inbound_cipher = lambda *a, **k: got.__setitem__("in", k if k else a)
+            t.packetizer.set_outbound_compressor = lambda c, got=got: got.setdefault("zout", []).append(c)
+            t.packetizer.set_inbound_compressor = lambda c, got=got: got.setdefault("zin", []).append(c)
             t._activate_outbound()
             out = list(rec)
             del rec[:]
@@ -154,6 +162,18 @@ def letters_case(tier):
                   "packet-layer-gets-the-client-to-server-cipher,MAC,size-and-framing-on-both-ends")
         ctx.prove(handed_ok(handed["server"].get("out"), s2c_cipher, s2c_mac) and handed_ok(handed["client"].get("in"), s2c_cipher, s2c_mac),
                   "packet-layer-gets-the-server-to-client-cipher,MAC,size-and-framing-on-both-ends")
+
+        def zwant(name):
+            # compression starts with the new keys - at the first exchange and at every later one - except that the
+            # delayed variant waits for authentication
+            return name != "none" and (name != "zlib@openssh.com" or authed)
+
+        def zok(lst, want):
+            return len(lst or []) == (1 if want else 0) and all(callable(c) for c in (lst or []))
+        ctx.prove(zok(handed["client"].get("zout"), zwant(c2s_comp)) and zok(handed["server"].get("zin"), zwant(c2s_comp)),
+                  "client-to-server-compression-starts-with-the-new-keys-on-both-ends(first-exchange-and-re-key)")
+        ctx.prove(zok(handed["server"].get("zout"), zwant(s2c_comp)) and zok(handed["client"].get("zin"), zwant(s2c_comp)),
+                  "server-to-client-compression-starts-with-the-new-keys-on-both-ends(first-exchange-and-re-key)")
     return Case("direction-letters-and-sizes", fn,
                 ["client-outbound==A/C/E-with-the-cipher's-iv,key-and-digest-sizes", "server-inbound==client-outbound",
                  "server-outbound==B/D/F", "client-inbound==server-outbound",
